@@ -361,17 +361,26 @@ def emit(allregs):
     return '\n'.join(out) + '\n'
 
 
+def write_if_changed(path, text):
+    """keep the time stamp when nothing changed, so that make does not rebuild the proofs"""
+    try:
+        if open(path).read() == text:
+            return
+    except OSError:
+        pass
+    with open(path, 'w') as f:
+        f.write(text)
+
+
 def main():
     try:
         allregs = [(p, regions_of(p)) for p in FILES]
         text = emit(allregs)
     except (TranslateError, ValueError) as ex:
-        with open(OUT, 'w') as f:
-            f.write('(* T2b could not translate the current source: %s *)\nT2b_translation_failed.\n' % str(ex).replace('*)', '* )'))
+        write_if_changed(OUT, '(* T2b could not translate the current source: %s *)\nT2b_translation_failed.\n' % str(ex).replace('*)', '* )'))
         print('T2b FAILED:', ex)
         return 1
-    with open(OUT, 'w') as f:
-        f.write(text)
+    write_if_changed(OUT, text)
     n = sum(len(r) for _, r in allregs)
     print('T2b ok: %s (%d regions, %d loops)' % (OUT, n, sum(len(l) for _, r in allregs for _, l in r)))
     return 0
